@@ -104,6 +104,14 @@ func (e *Engine) invoke(st *St, recv *IfaceV, m *types.Func, args []Value, c *ss
 		if g.IsFalse() {
 			continue
 		}
+		if a.T == e.opaqueErrType() && m.Name() == "Error" {
+			// the engine's stand-in for errors built by the fmt.Errorf stub
+			if single {
+				return e.constString("<error>")
+			}
+			brs = append(brs, branchRes{&St{pc: g, heap: st.heap.child()}, e.constString("<error>")})
+			continue
+		}
 		fn := e.Prog.LookupMethod(a.T, m.Pkg(), m.Name())
 		if fn == nil {
 			e.unsupported("no method " + m.Name() + " on " + a.T.String())
